@@ -63,9 +63,13 @@ __CPROVER_ensures(X_DELIVERED ==> (X_HL >= 8 && (X_HL & 3) == 0 && X_HL <= MSG_H
     && BE32(HDR(OLD(XM))) == g_pipe_id && OLD(XM)->m_pipe == g_pipe_id
     && X_HL - 4 <= XOLDLEN && OLD(XM)->m_body.ch_len == XOLDLEN - (X_HL - 4)
     && g_rr.put_q == XS->urq && g_rr.put_aio == &XP->aio_putq && g_rr.put_msg == OLD(XM) && XP->aio_putq.a_msg == OLD(XM)))
+#ifndef RR_T_NOHDR
 __CPROVER_ensures((X_DELIVERED && g_k < X_HL - 4) ==> HDR(OLD(XM))[4 + g_k] == g_b)
+#endif
 __CPROVER_ensures(X_DELIVERED ==> (RR_NO_END_BELOW((X_HL >> 2) - 2) && (g_k == X_HL - 8 ==> RR_HB(g_b))))
+#ifndef RR_T_NOBODY
 __CPROVER_ensures((X_DELIVERED && g_k >= X_HL - 4 && g_k < XOLDLEN) ==> OLD(XM)->m_body.ch_ptr[g_k - (X_HL - 4)] == g_b)
+#endif
 #endif
 ;
 #endif
